@@ -25,6 +25,14 @@
 (*    "prefix2"   key = first two characters                               *)
 (* The wrong keys exist for expected counterexamples and to define which   *)
 (* pairs of names are worth putting in one process (Collide).              *)
+(*                                                                         *)
+(* Round 5 -- the dimension HOW OFTEN a formula names an element: the      *)
+(* reader ADDS the counts of every occurrence (CH3OH has four H, CH3CH2OH  *)
+(* two C and six H).  Wrong readers, for expected counterexamples:         *)
+(*    "lastcount"   an element keeps the count of its last occurrence      *)
+(*    "firstcount"  an element keeps the count of its first occurrence     *)
+(* A process that asks for a formula with a repeated element is worth      *)
+(* replaying whatever else it asks for (Interesting).                      *)
 (***************************************************************************)
 EXTENDS Chemistry, SequencesExt
 CONSTANTS MaxObj,        \* chemistry objects built one after the other in the process
@@ -74,6 +82,14 @@ SumCnt(toks, el) == IF toks = <<>> THEN 0
 Comp(s) == LET toks == Tokens(s, 1)
                els  == {toks[i].el : i \in 1..Len(toks)}
            IN  [e \in els |-> SumCnt(toks, e)]
+\* the wrong readers: one occurrence of a repeated element decides
+Occ(toks, el) == {i \in 1..Len(toks) : toks[i].el = el}
+OneOcc(toks, el, v) == LET o == Occ(toks, el)
+                       IN  IF v = "lastcount" THEN CHOOSE i \in o : \A j \in o : j <= i ELSE CHOOSE i \in o : \A j \in o : i <= j
+ReadV(v, s) == LET toks == Tokens(s, 1)
+                   els  == {toks[i].el : i \in 1..Len(toks)}
+               IN  [e \in els |-> toks[OneOcc(toks, e, v)].cnt]
+Repeats(s) == LET toks == Tokens(s, 1) IN \E i, j \in 1..Len(toks) : i < j /\ toks[i].el = toks[j].el
 RECURSIVE Concat(_)
 Concat(s) == IF s = <<>> THEN "" ELSE Head(s) \o Concat(Tail(s))
 
@@ -82,7 +98,9 @@ Pool == << <<"C","O">>, <<"C","o">>, <<"H","F">>, <<"H","f">>, <<"N","O">>, <<"N
            <<"S","i","O">>, <<"S","I","O">>,
            <<"N","O","2">>, <<"N","2","O">>, <<"S","O","2">>, <<"S","2","O">>,
            <<"O","2">>, <<"O","3">>, <<"C","2","H","2">>, <<"C","2","H","4">>, <<"C","H","4">>, <<"C","1","0","H","8">>,
-           <<"H","2","O">>, <<"H","2","O","2">>, <<"C","O","2">> >>
+           <<"H","2","O">>, <<"H","2","O","2">>, <<"C","O","2">>,
+           \* formulae that name an element more than once
+           <<"C","H","3","O","H">>, <<"C","H","3","C","N">>, <<"H","C","O","O","H">>, <<"C","H","3","C","H","2","O","H">> >>
 PoolNames == {Pool[i] : i \in 1..Len(Pool)}
 
 \* ------------------------------------------------------- keys of a would-be memo
@@ -93,6 +111,7 @@ Key(v, s) == CASE v = "casefold" -> [i \in 1..Len(s) |-> UpperOf(s[i])]
                [] v = "prefix2"  -> SubSeq(s, 1, IF Len(s) < 2 THEN Len(s) ELSE 2)
                [] OTHER          -> s
 LossyKeys == {"casefold", "anagram", "nodigits", "prefix2"}
+WrongReaders == {"lastcount", "firstcount"}
 \* constants, evaluated once
 CompOf == TLCEval([s \in PoolNames |-> Comp(s)])
 KeyOf == TLCEval([v \in LossyKeys |-> [s \in PoolNames |-> Key(v, s)]])
@@ -104,9 +123,13 @@ CompList(s) == LET c == CompOf[s] IN SetToSeq({<<e, c[e]>> : e \in DOMAIN c})
 CompListOf == TLCEval([s \in PoolNames |-> CompList(s)])
 NameStr == TLCEval([s \in PoolNames |-> Concat(s)])
 Asked(h) == UNION {{h[o][k] : k \in 1..Len(h[o])} : o \in 1..Len(h)}
-Interesting(h) == \E a \in Asked(h), b \in Asked(h) : <<a, b>> \in CollidePairs
+ReadOf == TLCEval([v \in WrongReaders |-> [s \in PoolNames |-> ReadV(v, s)]])
+RepeatNames == TLCEval({s \in PoolNames : Repeats(s)})
+Interesting(h) == \/ \E a \in Asked(h), b \in Asked(h) : <<a, b>> \in CollidePairs
+                  \/ Asked(h) \cap RepeatNames # {}
 \* the lossy keys under which two names of the behaviour coincide (exported as the input class)
 KeysOf(h) == UNION {PairKeys[p] : p \in {q \in CollidePairs : q[1] \in Asked(h) /\ q[2] \in Asked(h)}}
+             \cup (IF Asked(h) \cap RepeatNames # {} THEN {"repeated-element"} ELSE {})
 
 \* ------------------------------------------------------------------- behaviour
 Objects == TLCEval({o \in UNION {[1..k -> PoolNames] : k \in 1..MaxNames} : \A i, j \in 1..Len(o) : i # j => o[i] # o[j]})
@@ -114,9 +137,9 @@ Init == hist = <<>> /\ memo = <<>> /\ ans = <<>>
 
 \* the composition answered for name s by a design whose memo is keyed by v and holds m ("spec": always read the formula)
 KeyV(v, s) == IF v \in LossyKeys THEN KeyOf[v][s] ELSE s
-AnswerV(v, m, s) == IF v # "spec" /\ \E i \in 1..Len(m) : m[i].key = KeyV(v, s)
+AnswerV(v, m, s) == IF v \in LossyKeys /\ \E i \in 1..Len(m) : m[i].key = KeyV(v, s)
                     THEN m[CHOOSE i \in 1..Len(m) : m[i].key = KeyV(v, s)].comp
-                    ELSE CompOf[s]
+                    ELSE IF v \in WrongReaders THEN ReadOf[v][s] ELSE CompOf[s]
 RECURSIVE AskAllV(_, _, _, _)
 \* -> [memo, ans]: the object asks for its gases in order
 AskAllV(v, m, o, k) ==
@@ -148,12 +171,17 @@ AnswerIsOfAskedFormula == Len(hist) > 0 => \A k \in 1..Len(Cur) : ans[k] = CompO
 \* the reader counts every atom: at least one per upper-case letter, exactly that many when the name has no digits
 RECURSIVE SumAll(_)
 SumAll(toks) == IF toks = <<>> THEN 0 ELSE Head(toks).cnt + SumAll(Tail(toks))
+RECURSIVE SumOver(_, _)
+SumOver(c, els) == IF els = {} THEN 0 ELSE LET e == CHOOSE e \in els : TRUE IN c[e] + SumOver(c, els \ {e})
+CompAtoms(c) == SumOver(c, DOMAIN c)
 ReaderSane == \A s \in PoolNames :
     LET ups == Cardinality({i \in 1..Len(s) : IsUpper(s[i])})
         tot == SumAll(Tokens(s, 1))
     IN  /\ \A e \in DOMAIN Comp(s) : Comp(s)[e] >= 1
         /\ tot >= ups
         /\ ((\A i \in 1..Len(s) : ~IsDigit(s[i])) => tot = ups)
+        \* every occurrence of an element is ADDED: the atoms of the composition are the atoms of all tokens
+        /\ CompAtoms(Comp(s)) = tot
 \* the mixture of the object (constant profiles, exact)
 Ab(o) == [k \in 1..Len(o) |-> R(k, AbDen)]
 RowsOf(o) == [g \in 1..Len(o) |-> <<Ab(o)[g]>>]
@@ -169,7 +197,7 @@ ObjJson(o) == [names |-> [k \in 1..Len(o) |-> NameStr[o[k]]],
 Emit == (Export /\ Len(hist) > 0 /\ Interesting(hist)) =>
     /\ PrintT(<<"MVEC", ToJson([ratio |-> R(RatioNum, RatioDen), keys |-> SetToSeq(KeysOf(hist)),
                                 objs  |-> [i \in 1..Len(hist) |-> ObjJson(hist[i])]])>>)
-    /\ \A v \in LossyKeys : IF WouldBreak(v, hist)
+    /\ \A v \in LossyKeys \cup WrongReaders : IF WouldBreak(v, hist)
                              THEN PrintT(<<"WITNESS", ToJson([variant |-> v, names |-> [i \in 1..Len(hist) |-> ObjJson(hist[i]).names]])>>)
                              ELSE TRUE
 =============================================================================
